@@ -42,13 +42,136 @@ Ltac step IH g Heqg :=
 
 Ltac finish IH g Heqg := repeat step IH g Heqg; try reflexivity; try assumption; try (use_ih IH g Heqg; reflexivity).
 
+
+(* one-step unfoldings (checked once by conversion; the case analyses below then work on small terms) *)
+Lemma parse_elt_eq : forall f ts, parse_elt (S f) ts =
+  match ts with
+  | TStar :: r => match parse_e f (req KStarElt 0) r with Some (v, r') => Some (Node (LOp KStarElt) [v], r') | None => None end
+  | _ => parse_e f (req KTuple 0) ts
+  end.
+Proof. reflexivity. Qed.
+
+Lemma parse_arg_eq : forall f ts, parse_arg (S f) ts =
+  match ts with
+  | TStar :: r => match parse_e f (req KStarArg 0) r with Some (v, r') => Some (Node (LOp KStarArg) [v], r') | None => None end
+  | TDStar :: r => match parse_e f (req KKeyword 0) r with Some (v, r') => Some (Node (LKeyword None) [v], r') | None => None end
+  | TKw n :: r => match parse_e f (req KKeyword 0) r with Some (v, r') => Some (Node (LKeyword (Some n)) [v], r') | None => None end
+  | _ => parse_e f (req KCall 1) ts
+  end.
+Proof. reflexivity. Qed.
+
+Lemma parse_args_eq : forall f ts, parse_args (S f) ts =
+  match ts with
+  | TRP :: r => Some ([], r)
+  | _ =>
+      match parse_arg f ts with
+      | Some (a, TRP :: r) => Some ([a], r)
+      | Some (a, TComma :: r1) => match parse_args f r1 with Some (more, r) => Some (a :: more, r) | None => None end
+      | _ => None
+      end
+  end.
+Proof. reflexivity. Qed.
+
+Lemma parse_sitem_eq : forall f ts, parse_sitem (S f) ts =
+  match ts with
+  | TColon :: r => slice_after_lower (parse_e f) None r
+  | _ =>
+      match parse_e f (req KSubscript 1) ts with
+      | Some (a, TColon :: r) => slice_after_lower (parse_e f) (Some a) r
+      | Some (a, r) => Some (a, r)
+      | None => None
+      end
+  end.
+Proof. reflexivity. Qed.
+
+Ltac by_eq lem IH f :=
+  intros; match goal with H : _ = Some ?r |- _ = Some ?r =>
+    rewrite lem in H; rewrite lem; remember (S f) as g eqn:Heqg in |- *;
+    unfold slice_after_lower, slice_after_upper in *; finish IH g Heqg end.
+
+Lemma mono_parse_e : forall f, mono_at f -> forall lvl ts r, parse_e (S f) lvl ts = Some r -> parse_e (S (S f)) lvl ts = Some r.
+Proof.
+  intros f IH. intros. match goal with H : _ = Some ?r |- _ = Some ?r =>
+         remember (S f) as g eqn:Heqg; rewrite Heqg in H; simpl in H; simpl; unfold slice_after_lower, slice_after_upper in *;
+         finish IH g Heqg end.
+Qed.
+
+Lemma mono_climb : forall f, mono_at f -> forall lvl l ts r, climb (S f) lvl l ts = Some r -> climb (S (S f)) lvl l ts = Some r.
+Proof.
+  intros f IH. intros. match goal with H : _ = Some ?r |- _ = Some ?r =>
+         remember (S f) as g eqn:Heqg; rewrite Heqg in H; simpl in H; simpl; unfold slice_after_lower, slice_after_upper in *;
+         finish IH g Heqg end.
+Qed.
+
+Lemma mono_bool_chain : forall f, mono_at f -> forall k ts r, bool_chain (S f) k ts = Some r -> bool_chain (S (S f)) k ts = Some r.
+Proof.
+  intros f IH. intros. match goal with H : _ = Some ?r |- _ = Some ?r =>
+         remember (S f) as g eqn:Heqg; rewrite Heqg in H; simpl in H; simpl; unfold slice_after_lower, slice_after_upper in *;
+         finish IH g Heqg end.
+Qed.
+
+Lemma mono_cmp_chain : forall f, mono_at f -> forall ts r, cmp_chain (S f) ts = Some r -> cmp_chain (S (S f)) ts = Some r.
+Proof.
+  intros f IH. intros. match goal with H : _ = Some ?r |- _ = Some ?r =>
+         remember (S f) as g eqn:Heqg; rewrite Heqg in H; simpl in H; simpl; unfold slice_after_lower, slice_after_upper in *;
+         finish IH g Heqg end.
+Qed.
+
+Lemma mono_parse_elt : forall f, mono_at f -> forall ts r, parse_elt (S f) ts = Some r -> parse_elt (S (S f)) ts = Some r.
+Proof.
+  intros f IH. by_eq parse_elt_eq IH f.
+Qed.
+
+Lemma mono_parse_elts : forall f, mono_at f -> forall ts r, parse_elts (S f) ts = Some r -> parse_elts (S (S f)) ts = Some r.
+Proof.
+  intros f IH. intros. match goal with H : _ = Some ?r |- _ = Some ?r =>
+         remember (S f) as g eqn:Heqg; rewrite Heqg in H; simpl in H; simpl; unfold slice_after_lower, slice_after_upper in *;
+         finish IH g Heqg end.
+Qed.
+
+Lemma mono_parse_arg : forall f, mono_at f -> forall ts r, parse_arg (S f) ts = Some r -> parse_arg (S (S f)) ts = Some r.
+Proof.
+  intros f IH. by_eq parse_arg_eq IH f.
+Qed.
+
+Lemma mono_parse_args : forall f, mono_at f -> forall ts r, parse_args (S f) ts = Some r -> parse_args (S (S f)) ts = Some r.
+Proof.
+  intros f IH. by_eq parse_args_eq IH f.
+Qed.
+
+Lemma mono_parse_sitem : forall f, mono_at f -> forall ts r, parse_sitem (S f) ts = Some r -> parse_sitem (S (S f)) ts = Some r.
+Proof.
+  intros f IH. by_eq parse_sitem_eq IH f.
+Qed.
+
+Lemma mono_parse_sitems : forall f, mono_at f -> forall ts r, parse_sitems (S f) ts = Some r -> parse_sitems (S (S f)) ts = Some r.
+Proof.
+  intros f IH. intros. match goal with H : _ = Some ?r |- _ = Some ?r =>
+         remember (S f) as g eqn:Heqg; rewrite Heqg in H; simpl in H; simpl; unfold slice_after_lower, slice_after_upper in *;
+         finish IH g Heqg end.
+Qed.
+
+Lemma mono_parse_index : forall f, mono_at f -> forall ts r, parse_index (S f) ts = Some r -> parse_index (S (S f)) ts = Some r.
+Proof.
+  intros f IH. intros. match goal with H : _ = Some ?r |- _ = Some ?r =>
+         remember (S f) as g eqn:Heqg; rewrite Heqg in H; simpl in H; simpl; unfold slice_after_lower, slice_after_upper in *;
+         finish IH g Heqg end.
+Qed.
+
+Lemma mono_parse_fparts : forall f, mono_at f -> forall ts r, parse_fparts (S f) ts = Some r -> parse_fparts (S (S f)) ts = Some r.
+Proof.
+  intros f IH. intros. match goal with H : _ = Some ?r |- _ = Some ?r =>
+         remember (S f) as g eqn:Heqg; rewrite Heqg in H; simpl in H; simpl; unfold slice_after_lower, slice_after_upper in *;
+         finish IH g Heqg end.
+Qed.
+
 Lemma mono_step : forall f, mono_at f -> mono_at (S f).
 Proof.
   intros f IH. unfold mono_at.
-  repeat split; intros.
-  all: match goal with H : _ = Some ?r |- _ = Some ?r => 
-         remember (S f) as g eqn:Heqg; rewrite Heqg in H; simpl in H; simpl; unfold slice_after_lower, slice_after_upper in *;
-         finish IH g Heqg end.
+  split; [apply mono_parse_e; exact IH|]. split; [apply mono_climb; exact IH|]. split; [apply mono_bool_chain; exact IH|].
+  split; [apply mono_cmp_chain; exact IH|]. split; [apply mono_parse_elt; exact IH|]. split; [apply mono_parse_elts; exact IH|].
+  split; [apply mono_parse_arg; exact IH|]. split; [apply mono_parse_args; exact IH|]. split; [apply mono_parse_sitem; exact IH|].
+  split; [apply mono_parse_sitems; exact IH|]. split; [apply mono_parse_index; exact IH|]. apply mono_parse_fparts; exact IH.
 Qed.
 
 Lemma mono_all : forall f, mono_at f.
